@@ -180,6 +180,17 @@ theorem c18_seq_checks {α : Type} [DecidableEq α] (root : String) (steps : Lis
     (op : SeqOp α) : checkSeq root steps op (seqModel root steps op) = true := by
   simp [checkSeq, c18_seq_laws]
 
+/-- **The results of the sequence operations are faithful values too**: pickling / deep-copying what
+    `p[i]`, `p[a:b:c]` (empty selections included), `from_t()`, `Path(p, q)`, `values()`, `items()`, `len`,
+    `==`, `startswith` return — for a T-, S- or A-rooted path — gives the same operation on the list of
+    steps back: the pickle state of a Path depends on root and steps only, not on which root object
+    `Path.__getitem__` / `from_t` put into the new `__ops__` (seeded change C18-s11). -/
+theorem c18_seq_pickle {α : Type} [DecidableEq α] (F : Facts) (hwf : WF F = true) (root : String)
+    (hr : root ∈ ["T", "S", "A"]) (steps : List (String × α)) (op : SeqOp α) :
+    pickleRes F.getstateRoots F.setstateRoots (seqModel root steps op) = seqRef root steps op := by
+  rw [c18_seq_laws]
+  exact pickleRes_ref F hwf root hr steps op
+
 /-- `Path(p, q)` of two Paths has the root of `p` and the steps of `p` followed by those of `q`
     (`q` rooted at T; on an `A` path only attribute / item / segment steps can be appended). -/
 theorem c18_concat_steps {L : Type} (root : String) (p q : List (Step L))
